@@ -11,7 +11,8 @@ LEVEL = "exploration"
 
 def run(ctx):
     q = ctx.quick
-    consts = {"MaxM": 4, "MaxN": 4, "Keep": 5 if q else 1, "Seed": ctx.seed}
+    consts = {"MaxM": 4, "MaxN": 4, "Keep": 5 if q else 1, "Seed": ctx.seed,
+              "BigN": "{6}" if q else "{5, 6, 7}", "BigM": 6 if q else 8, "KeepBig": 97 if q else 53}
     cfg = os.path.join(vlib.SPEC, "_sk.cfg")
     with open(cfg, "w") as f:
         f.write("SPECIFICATION Spec\nCONSTANTS\n" + "".join("  %s = %s\n" % kv for kv in consts.items()) + "INVARIANT Emit\nINVARIANT Laws\nCHECK_DEADLOCK FALSE\n")
@@ -52,5 +53,5 @@ def run(ctx):
         ctx.sample({k: cases[len(cases) // 2][k] for k in ("A", "fill", "adj", "connected", "rank")})
     ctx.assume("values are small integers, so the exact rank is numerically unambiguous; ASan/UBSan observe the memory accesses of the kernels")
     return {"evaluations": len(cases), "distinct_nontrivial": nontriv,
-            "rule": "all patterns with up to 4 rows over up to 4 columns x 3 fill orders (thinned by Keep = %s); non-trivial = has a structural zero, is rank deficient or has a disconnected graph" % consts["Keep"],
+            "rule": "all patterns with up to 4 rows over up to 4 columns x 3 fill orders (thinned by Keep = %s) and edge networks (rows of 2 or 3 columns) over 5..7 columns with up to 8 rows (thinned by KeepBig); non-trivial = has a structural zero, is rank deficient or has a disconnected graph" % consts["Keep"],
             "tlc_states": r.distinct, "checks": summ["checks"] if summ else {}, "exhaustive": not q}
